@@ -253,8 +253,26 @@ def case_cipher(o, c, sp, rnd):
                 else: c.sub1()
     finally: o.t.destroy(h)
 
+def until_lz(make, tries=6000):
+    """first result of make(i) whose big-endian value has a leading zero byte (the length must stay k)"""
+    for i in range(tries):
+        r = make(i)
+        if r[-1][0] == 0: return r
+    raise AssertionError('no leading-zero value found')
 def case_rsa_sign(o, c, sp, rnd):
     K = KF.load(); k = K['rsa'][sp['bits']]; hp = o.t.rsa_priv(k); hu = o.t.rsa_pub(k); kind = sp['kind']; x = o.x; ck = o.t.ck; h = sp.get('h')
+    if sp.get('lz'):
+        # boundary: the signature value starts with a zero byte
+        if kind == 'x509':
+            sg = b'\0' + rb(rnd, k.k - 1); sg = R.i2osp(R.os2ip(sg) % (k.n >> 8), k.k); data = k.raw_public(sg)
+            mac_like(o, c, sp, rnd, x.M('CKM_RSA_X_509'), 'CKM_RSA_X_509:leading-zero-signature', hp, hu, data, k.raw_private(data), multi=False); return
+        if kind in ('pkcs_raw', 'pkcs_hash'):
+            hh = h if kind == 'pkcs_hash' else None; base = rb(rnd, sp['mlen']); data, want = until_lz(lambda i: (base + i.to_bytes(3, 'big'), k.sign_pkcs1(base + i.to_bytes(3, 'big'), hh)))
+            mn = RSA_HASH[h] if hh else 'CKM_RSA_PKCS'; mac_like(o, c, sp, rnd, x.M(mn), mn + ':leading-zero-signature', hp, hu, data, want, multi=bool(hh)); return
+        sl = sp['slen']; pre = kind == 'pss_raw'; data = rb(rnd, R.HASHLEN[h] if pre else sp['mlen']); mname = 'CKM_RSA_PKCS_PSS' if pre else PSS_HASH[h]
+        mech = x.M(mname, pss={'hash': ck[HASHES[h]], 'mgf': ck[MGF[h]], 'slen': sl})
+        mac_like(o, c, sp, rnd, mech, mname + ':leading-zero-signature', hp, hu, data, None, deterministic=False, ref_verify=lambda sg: k.verify_pss(data, sg, h, sl, prehashed=pre),
+                 ref_sign=lambda: until_lz(lambda i: (k.sign_pss(data, h, sl, prehashed=pre, rnd=rnd),))[0], multi=not pre); return
     if kind == 'pkcs_raw':
         data = rb(rnd, sp['mlen']); mac_like(o, c, sp, rnd, x.M('CKM_RSA_PKCS'), 'CKM_RSA_PKCS', hp, hu, data, k.sign_pkcs1(data), multi=False)
     elif kind == 'x509':
@@ -271,24 +289,27 @@ def case_rsa_sign(o, c, sp, rnd):
 
 def case_rsa_enc(o, c, sp, rnd):
     K = KF.load(); k = K['rsa'][sp['bits']]; hp = o.t.rsa_priv(k); hu = o.t.rsa_pub(k); x = o.x; ck = o.t.ck; mname = sp['mech']; data = rb(rnd, sp['mlen'])
+    lz = bool(sp.get('lz')); cls = mname + (':leading-zero-ciphertext' if lz else '')
     if mname == 'CKM_RSA_X_509':
         if len(data) == k.k: data = R.i2osp(R.os2ip(data) % k.n, k.k)
+        if lz: ct0 = R.i2osp(R.os2ip(b'\0' + rb(rnd, k.k - 1)) % (k.n >> 8), k.k); data = k.raw_private(ct0)        # the public operation on this input yields a value with a leading zero byte
         mech = x.M(mname); g = o.crypt('Encrypt', mech, hu, data)
         if g[0] != 'CKR_OK' and g[2] == 'init': c.refused = g[0]; return
-        same_or_viol(c, 'C_Encrypt', mname, g, k.raw_public(data), 'raw RSA public operation', data=data)
+        same_or_viol(c, 'C_Encrypt', cls, g, k.raw_public(data), 'raw RSA public operation', data=data)
         ct = k.raw_public(data); g = o.crypt('Decrypt', mech, hp, ct)
         same_or_viol(c, 'C_Decrypt', mname, g, R.i2osp(R.os2ip(data), k.k), 'raw RSA private operation', ct=ct); return
     if mname == 'CKM_RSA_PKCS_OAEP':
         mech = x.M(mname, oaep={'hash': ck.CKM_SHA_1, 'mgf': ck.CKG_MGF1_SHA1, 'source': ck.CKZ_DATA_SPECIFIED}); dec = lambda ct: k.decrypt_oaep(ct, 'sha1'); enc = lambda: k.encrypt_oaep(data, 'sha1', rnd=rnd)
     else: mech = x.M(mname); dec = k.decrypt_pkcs1; enc = lambda: k.encrypt_pkcs1(data, rnd)
+    if lz: enc0 = enc; enc = lambda: until_lz(lambda i: (enc0(),))[0]
     g = o.crypt('Encrypt', mech, hu, data)
     if g[0] != 'CKR_OK' and g[2] == 'init': c.refused = g[0]; return
     if g[0] != 'CKR_OK': c.V('C_Encrypt', mname, 'failed:' + g[0], 'the token failed to encrypt a message of legal length', mlen=len(data))
     elif dec(g[1]) != data: c.V('C_Encrypt', mname, 'reference-cannot-decrypt', 'the independent implementation cannot decrypt the token ciphertext to the message', ct=g[1], data=data)
     else: c.ok()
     ct = enc(); g = o.crypt('Decrypt', mech, hp, ct)
-    if g[0] != 'CKR_OK': c.V('C_Decrypt', mname, 'reference-ciphertext-rejected', 'the token fails (%s) to decrypt a ciphertext made by the independent implementation' % g[0], ct=ct, data=data)
-    elif g[1] != data: c.V('C_Decrypt', mname, 'wrong-plaintext', 'decrypting the reference ciphertext gives a different plaintext', got=g[1], want=data)
+    if g[0] != 'CKR_OK': c.V('C_Decrypt', cls, 'reference-ciphertext-rejected', 'the token fails (%s) to decrypt a ciphertext made by the independent implementation' % g[0], ct=ct, data=data)
+    elif g[1] != data: c.V('C_Decrypt', cls, 'wrong-plaintext', 'decrypting the reference ciphertext gives a different plaintext', got=g[1], want=data)
     else: c.ok()
 
 def case_dsa(o, c, sp, rnd):
@@ -312,18 +333,22 @@ def case_derive(o, c, sp, rnd):
     if kind == 'dh':
         own, peer = K['dh'][sp['group']]
         if sp['peer'] == 'random': peer = R.DHKey(own.p, own.g, rnd.randrange(2, (own.p - 1) // 2))
+        elif sp['peer'] in (1, 2): peer = KF.leadz_peers()['dh'][sp['group']][sp['peer']]        # shared secret with 1 / 2 leading zero bytes
         want = own.derive(peer.y); tm['CKA_VALUE_LEN'] = len(want); mname = 'CKM_DH_PKCS_DERIVE'
         g = o.derive(x.M(mname, hex=KF.ib(peer.y).hex()), o.t.dh_priv(own), tm); cls = mname + ':' + ('named-group' if sp['group'].startswith('modp') else 'custom-group')
     elif kind == 'ecdh':
         own, peer = K['ec'][sp['curve']]
         if sp['peer'] == 'random': peer = R.ECKey(own.c, rnd.randrange(1, own.c.n))
+        elif sp['peer'] in (1, 2): peer = KF.leadz_peers()['ec'][sp['curve']][sp['peer']]
         want = own.ecdh(peer.Q); pub = peer.point(); pub = R.der_octets(pub) if sp['enc'] == 'der' else pub; mname = 'CKM_ECDH1_DERIVE'; cls = mname + ':' + sp['curve']
         g = o.derive(x.M(mname, ecdh1={'kdf': ck.CKD_NULL, 'public': pub.hex()}), o.t.ec_priv(own), tm)
     else:
         own, peer = K['x'][sp['curve']]
         if sp['peer'] == 'random': peer = R.XKey(sp['curve'], rb(rnd, len(own.sk)))
+        elif sp['peer'] in ('lead', 'trail'): peer = KF.leadz_peers()['x'][sp['curve']][sp['peer']]
         want = own.derive(peer.pk); pub = R.der_octets(peer.pk) if sp['enc'] == 'der' else peer.pk; mname = 'CKM_ECDH1_DERIVE'; cls = mname + ':' + sp['curve']
         g = o.derive(x.M(mname, ecdh1={'kdf': ck.CKD_NULL, 'public': pub.hex()}), o.t.x_priv(own, sp.get('oid', False)), tm)
+    if sp['peer'] in (1, 2, 'lead', 'trail'): cls += ':zero-byte-at-end-of-secret'
     if g[0] != 'CKR_OK': c.V('C_DeriveKey', cls, 'failed:' + g[0], 'the token failed to derive a shared secret from a valid peer value', spec2=sp)
     elif g[1] != want: c.V('C_DeriveKey', cls, 'differs-from-reference', 'the derived shared secret differs from the independent implementation', got=g[1], want=want)
     else: c.ok()
@@ -339,8 +364,8 @@ def distinct_key(sp):
         if sp['mode'] == 'ctr': extra = (sp['bits'], 'near' if sp['near'] else 'far')
         if sp['mode'] == 'gcm': extra = (sp['ivlen'], min(sp['aadlen'], 33), sp['tagbits'])
         return (f, sp['mech'], sp['klen'], lenclass(sp['mlen'], bs)) + extra
-    if f == 'rsa_sign': return (f, sp['kind'], sp['bits'], sp.get('h'), sp.get('slen'), min(sp.get('mlen', 0), 300))
-    if f == 'rsa_enc': return (f, sp['mech'], sp['bits'], sp['mlen'])
+    if f == 'rsa_sign': return (f, sp['kind'], sp['bits'], sp.get('h'), sp.get('slen'), min(sp.get('mlen', 0), 300), bool(sp.get('lz')))
+    if f == 'rsa_enc': return (f, sp['mech'], sp['bits'], sp['mlen'], bool(sp.get('lz')))
     if f == 'dsa': return (f, tuple(sp['ln']), sp.get('h'), min(sp['mlen'], 300))
     if f in ('ecdsa', 'eddsa'): return (f, sp['curve'], min(sp['mlen'], 300), sp.get('oid'))
     return (f, sp['kind'], sp.get('group') or sp.get('curve'), sp.get('enc'), sp['peer'])
@@ -444,6 +469,12 @@ def specs(ctx, rnd, thorough):
             for sl in salts:
                 for _ in range(rep): add(fam='rsa_sign', kind='pss_raw', mech='CKM_RSA_PKCS_PSS', bits=bits, h=h, slen=sl)
                 for l in ((0, 77) if q else (0, 1, 77, 300)): add(fam='rsa_sign', kind='pss_hash', mech=PSS_HASH[h], bits=bits, h=h, slen=sl, mlen=l)
+        if bits in (1024, 2048):
+            for _ in range(2):
+                add(fam='rsa_sign', kind='pkcs_raw', mech='CKM_RSA_PKCS', bits=bits, mlen=30, lz=True); add(fam='rsa_sign', kind='x509', mech='CKM_RSA_X_509', bits=bits, mlen=k, lz=True)
+                add(fam='rsa_sign', kind='pkcs_hash', mech=RSA_HASH['sha256'], bits=bits, h='sha256', mlen=40, lz=True); add(fam='rsa_sign', kind='pss_hash', mech=PSS_HASH['sha256'], bits=bits, h='sha256', slen=32, mlen=40, lz=True)
+                add(fam='rsa_sign', kind='pss_raw', mech='CKM_RSA_PKCS_PSS', bits=bits, h='sha1', slen=20, lz=True)
+                for m_ in ('CKM_RSA_PKCS', 'CKM_RSA_PKCS_OAEP', 'CKM_RSA_X_509'): add(fam='rsa_enc', mech=m_, bits=bits, mlen=24, lz=True)
         for l in sorted({0, 1, 16, 32, k - 12, k - 11}): add(fam='rsa_enc', mech='CKM_RSA_PKCS', bits=bits, mlen=l)
         for l in sorted({0, 1, 16, 32, k - 43, k - 42}): add(fam='rsa_enc', mech='CKM_RSA_PKCS_OAEP', bits=bits, mlen=l)
         for l in sorted({1, 16, k - 1, k}): add(fam='rsa_enc', mech='CKM_RSA_X_509', bits=bits, mlen=l)
@@ -464,14 +495,14 @@ def specs(ctx, rnd, thorough):
                 for _ in range(2 if q else 3): add(fam='eddsa', mech='CKM_EDDSA', curve=cv, mlen=l, oid=oid)
     # shared secrets
     for g in (('modp1024', 'dsa1024') if q else ('modp1024', 'modp2048', 'dsa1024')):
-        for peer in ['fixed'] + ['random'] * (6 if q else 12): add(fam='derive', mech='CKM_DH_PKCS_DERIVE', kind='dh', group=g, peer=peer)
+        for peer in ['fixed', 1, 2] + ['random'] * (6 if q else 12): add(fam='derive', mech='CKM_DH_PKCS_DERIVE', kind='dh', group=g, peer=peer)
     for cv in R.CURVES:
         for enc in ('raw', 'der'):
-            for peer in ['fixed'] + ['random'] * (5 if q else 10): add(fam='derive', mech='CKM_ECDH1_DERIVE', kind='ecdh', curve=cv, enc=enc, peer=peer)
+            for peer in ['fixed', 1, 2] + ['random'] * (5 if q else 10): add(fam='derive', mech='CKM_ECDH1_DERIVE', kind='ecdh', curve=cv, enc=enc, peer=peer)
     for cv in R.XBASE:
         for enc in ('raw', 'der'):
             for oid in (False, True):
-                for peer in ['fixed'] + ['random'] * (3 if q else 6): add(fam='derive', mech='CKM_ECDH1_DERIVE', kind='x', curve=cv, enc=enc, oid=oid, peer=peer)
+                for peer in ['fixed', 'lead', 'trail'] + ['random'] * (3 if q else 6): add(fam='derive', mech='CKM_ECDH1_DERIVE', kind='x', curve=cv, enc=enc, oid=oid, peer=peer)
     return S
 
 COST = {'rsa_sign': 6, 'rsa_enc': 4, 'dsa': 8, 'ecdsa': 6, 'eddsa': 8, 'derive': 3}
